@@ -131,6 +131,13 @@ def dispatch_wrappers(prog, res):
                 continue
             n += 1
             calls = [c for b, i, c in f.calls() if c.get("c") == body]
+            if not calls and len(f.calls()) == 1 and f.calls()[0][2].get("c") in (body + "_default", base + "_default"):
+                # a dispatcher compiled without DYNAMIC_BMI2: its flag is unused and it forwards to the default variant
+                c0 = f.calls()[0][2]
+                fw = [strip_casts(a).get("pi") for a in c0["a"]]
+                res.check(fw == list(range(len(fw))) and len(fw) >= len(f.params) - 1, R, f.name + ":static-dispatch", f.loc,
+                          "forwards its parameters in order to the default variant", "static dispatcher no longer forwards its parameters")
+                continue
             ok = len(calls) == 1 and len(f.calls()) == 1
             if ok:
                 args = calls[0]["a"]
@@ -174,6 +181,67 @@ def one_sequence_decoder(prog, res):
               "HUF_selectDecoder:users", h.loc, "result only picks X1 vs X2 in %s" % sorted(users), "new user of HUF_selectDecoder: %s" % sorted(users))
 
 
+def output_limit_selection(prog, res):
+    """T9 over a finite enum: every sequence decoder bounds its output by the start of the literals
+    exactly when the literals sit (whole) inside dst, for each litBufferLocation value that decoder
+    can be entered with (values derived from the dispatch in ZSTD_decompressBlock_internal)."""
+    R = "T9.output-limit-selection"
+    en = {n: v for n, v in prog.enum("ZSTD_litLocation_e")["items"]}
+    res.check(set(en) == {"ZSTD_not_in_dst", "ZSTD_in_dst", "ZSTD_split"}, R, "enum", "lib/decompress/zstd_decompress_internal.h", "three literal locations", "literal-location enum changed: %s" % sorted(en))
+    IN = en.get("ZSTD_in_dst")
+    d = prog.fn("ZSTD_decompressBlock_internal")
+    split_t = set(cond_edges(d, lambda c: c.get("k") == "bin" and c["op"] == "==" and any(y.get("f") == "litBufferLocation" for y in walk(c)) and any(y.get("n") == "ZSTD_split" for y in walk(c)), "true"))
+    split_f = set(cond_edges(d, lambda c: c.get("k") == "bin" and c["op"] == "==" and any(y.get("f") == "litBufferLocation" for y in walk(c)) and any(y.get("n") == "ZSTD_split" for y in walk(c)), "false"))
+    allv = set(en.values())
+    for dec in ("ZSTD_decompressSequences", "ZSTD_decompressSequencesSplitLitBuffer", "ZSTD_decompressSequencesLong"):
+        sites = d.call_roots(dec)
+        vals = set(allv)
+        if sites and split_t and d.must_pass(via_edges=split_t, targets=sites):
+            vals = {en["ZSTD_split"]}
+        elif sites and split_f and d.must_pass(via_edges=split_f, targets=sites):
+            vals = allv - {en["ZSTD_split"]}
+        dflt = prog.fn(dec + "_default")
+        callee = [c.get("c") for b, i, c in dflt.calls() if c.get("c")]
+        body = prog.fn(callee[0]) if len(callee) == 1 else prog.fn(dec + "_body")
+        # the output limit: the local handed to ZSTD_execSequence* as its `oend` argument (position 2)
+        lim = None
+        for b, i, c in body.calls(("ZSTD_execSequence", "ZSTD_execSequenceSplitLitBuffer")):
+            a = strip_casts(body.resolve_x(c["a"][1]))
+            if a is not None and a.get("k") == "ref" and a.get("rk") in ("l", "sl"):
+                lim = a["n"]
+        df = body.single_def(lim) if lim else None
+        ok = df is not None
+        why = "output limit of %s not found" % dec
+        if ok:
+            e = strip_casts(body.resolve_x(df))
+
+            def picks_literals(v):
+                """does the limit expression select dctx->litBuffer when litBufferLocation == v"""
+                if e.get("k") != "cond":
+                    return any(y.get("f") == "litBuffer" for y in body.walk_resolved(e))
+                c = strip_casts(body.resolve_x(e["c"]))
+                neg = False
+                while c.get("k") == "un" and c.get("op") == "!":
+                    c = strip_casts(body.resolve_x(c["e"])); neg = not neg
+                if c.get("k") != "bin" or c["op"] not in ("==", "!=") or not any(y.get("f") == "litBufferLocation" for y in walk(c)):
+                    return None
+                k = [const_val(x) for x in (c["lhs"], c["rhs"]) if const_val(x) is not None]
+                if len(k) != 1:
+                    return None
+                truth = ((v == k[0]) == (c["op"] == "==")) != neg
+                arm = strip_casts(body.resolve_x(e["t"] if truth else e["f"]))
+                return any(y.get("f") == "litBuffer" for y in body.walk_resolved(arm))
+            for v in sorted(vals):
+                got = picks_literals(v)
+                if got is None or got != (v == IN):
+                    ok = False
+                    nm = [n for n, x in en.items() if x == v][0]
+                    why = "%s can be entered with litBufferLocation == %s and then bounds its output by %s" % (
+                        dec, nm, "the start of the literals although they are not (wholly) in dst: valid blocks are refused with dstSize_tooSmall" if got else "the end of dst although the literals live there")
+        res.check(ok, R, dec, body.loc, "for litBufferLocation in %s the limit is litBuffer exactly for ZSTD_in_dst" % sorted(vals), why)
+    res.need(R, 4)
+
+
 def run(tier):
     res = Result("C04", tier)
     tus, info = extract(["decompress", "common", "compress"])
@@ -184,6 +252,7 @@ def run(tier):
     variant_agreement(prog, res)
     dispatch_wrappers(prog, res)
     one_sequence_decoder(prog, res)
+    output_limit_selection(prog, res)
     return res.finish(
         explanation="The 160 cells of LL/OF/ML_defaultDTable are compared with the table obtained by running the "
                     "format document's construction algorithm (re-implemented in the checker from "
